@@ -29,6 +29,23 @@ def apply_variant(variant, src_root, dst_root):
     """copy lasio package and apply edits; returns None or reason for skipping"""
     shutil.copytree(os.path.join(src_root, "lasio"), os.path.join(dst_root, "lasio"),
                     ignore=shutil.ignore_patterns("__pycache__", "*.pyc"))
+    if variant.get("patch"):
+        import subprocess
+        if shutil.which("patch") is None:
+            return "patch(1) not available"
+        rc = subprocess.run(["patch", "-p1", "-s", "--no-backup-if-mismatch", "-i", variant["patch"]], cwd=dst_root,
+                            stdout=subprocess.PIPE, stderr=subprocess.STDOUT)
+        if rc.returncode != 0:
+            return "patch does not apply to the tree under test"
+        for dp, dn, fn in os.walk(os.path.join(dst_root, "lasio")):
+            for f in fn:
+                if f.endswith(".py"):
+                    path = os.path.join(dp, f)
+                    try:
+                        compile(open(path, encoding="utf-8").read(), path, "exec")
+                    except SyntaxError as e:
+                        return "patched file does not compile: %s" % e
+        return None
     for (relfile, old, new) in variant["edits"]:
         path = os.path.join(dst_root, relfile)
         if not os.path.exists(path):
@@ -45,6 +62,26 @@ def apply_variant(variant, src_root, dst_root):
         with open(path, "w", encoding="utf-8") as f:
             f.write(s)
     return None
+
+
+def seeded_variants(prop):
+    """the confirmed seeded changes kept under /verif/seeded (written independently of the checkers)"""
+    import glob
+    import json
+    out = []
+    for meta in sorted(glob.glob(os.path.join(HERE, "seeded", "*", "meta.json"))):
+        try:
+            m = json.load(open(meta))
+        except Exception:
+            continue
+        if m.get("property") != prop:
+            continue
+        if m.get("expected") == "not-detectable":
+            continue
+        d = os.path.dirname(meta)
+        out.append({"id": "seeded:" + os.path.basename(d), "props": [prop], "rule": None, "kind": "breaking",
+                    "edits": [], "also": (), "patch": os.path.join(d, "patch.diff")})
+    return out
 
 
 def run_one(args):
@@ -77,6 +114,7 @@ def run_one(args):
 def run_for_property(prop, root, jobs=16, verbose=False):
     from selftest.variants import VARIANTS
     mine = [v for v in VARIANTS if prop in v["props"]]
+    mine += seeded_variants(prop)
     if not mine:
         return {"variants": 0}
     baseline, _ = _bad_keys(prop, root)
